@@ -268,6 +268,25 @@ CHECKS = {
 NOT_YET = 'not claimed in this revision'
 
 
+# what rounds 7-8 of the detection experiments added to a check (appended to its level text)
+ADDENDA = {
+    'C02': ' Shapes added later: two single-valued references, compound key, one referential attribute formalising two associations '
+           '(with unique_id and with integer identifiers, so that linked partners with the identifier 0 occur), 1:1 unconditional.',
+    'C03': ' Every split of an input over several input() calls is also fed with a build after every call; directory trees whose files share one name.',
+    'C04': ' The selection family also covers chains that return to instances already passed and whole selections (select many + cardinality); '
+           'programs that differ only in blank space inside a string literal are run one after the other in one process.',
+    'C05': ' Programs with elif clauses are also translated from texts laid out with a line per clause in equal, falling and rising columns, '
+           'with and without // comments ending the lines.',
+    'C09': ' Ask / change / ask again: in every reachable state a menu of identifier-covering equality queries and one-hop navigations is asked, '
+           'one change is made (every enabled operation; every write of a plain or identifying attribute) and both menus are asked again.',
+    'C10': ' The referential-chain family also starts from loaded instances whose references are null (zero id / absent column).',
+    'C11': ' Loader family also over a reflexive association whose ends carry equal phrases; three-instance models for identifier lists with two identifiers in the quick tier.',
+    'C15': ' Functions whose names differ in letter case only are called from Python and from OAL.',
+    'C16': ' The sorted association is neither the first nor the last of three reflexive associations of its class.',
+    'C19': ' A plain iterator (itertools.count) as the generator of a metamodel in the creation family.',
+}
+
+
 def main():
     props = [json.loads(l)['id'] for l in open(os.path.join(VERIF, 'properties.jsonl'))]
     checks = []
@@ -275,6 +294,7 @@ def main():
         if pid not in CHECKS:
             continue
         engine, technique, text, note, ref = CHECKS[pid]
+        text += ADDENDA.get(pid, '')
         checks.append(dict(
             property_id=pid,
             quick_cmd='./check %s --tier quick' % pid,
@@ -300,9 +320,9 @@ def main():
                  kind_free_text='hand-written explicit-state breadth-first search: each transition calls the real '
                                 'pyxtuml operation and a python reference model in lock-step; states are histories, '
                                 'deduplicated by canonical form; closure or stated depth bound'),
-            dict(name='enumerator', path='mc/enumerate.py',
+            dict(name='enumerator', path='mc/core.py',
                  serves_properties=[p for p in props if p in CHECKS and CHECKS[p][0] == 'enumerator'],
-                 kind_free_text='bounded exhaustive generators (all inputs/programs/configurations of a finite '
+                 kind_free_text='(Ctx.pmap in mc/core.py drives generators written in each mc/props/<id>.py) bounded exhaustive generators (all inputs/programs/configurations of a finite '
                                 'described family, deviation-bounded where a full product is infeasible) run on the '
                                 'real code and compared with reference models / differential oracles'),
         ],
